@@ -55,6 +55,7 @@ Definition assign (s:stmt) : list aval :=
   | MSSQLAlterType t => [VType t; VNull true]
   | MSSQLDropDefault => [VDefault None]
   | MSSQLAddDefault v => [VDefault (Some v)]
+  | DropConstraint _ | AddConstraint _ => []
   end.
 
 (* the attributes a statement rewrites as part of *restating* the column definition, i.e. whether or
@@ -154,7 +155,8 @@ Definition C13_holds (i:c13_in) (o:out) : Prop :=
 (* ------------------------------------------------------------------ boolean equalities *)
 Definition opt_eqb {A} (f:A->A->bool) (a b:option A) : bool :=
   match a, b with Some x, Some y => f x y | None, None => true | _, _ => false end.
-Definition ty_eqb (a b:ty) : bool := N.eqb (ty_id a) (ty_id b) && Bool.eqb (ty_dt a) (ty_dt b).
+Definition ty_eqb (a b:ty) : bool :=
+  N.eqb (ty_id a) (ty_id b) && Bool.eqb (ty_dt a) (ty_dt b) && opt_eqb N.eqb (ty_ck a) (ty_ck b).
 Definition attr_eqb (a b:attr) : bool :=
   match a, b with
   | AName, AName | AType, AType | ANull, ANull | ADefault, ADefault | AComment, AComment | AAutoinc, AAutoinc => true
@@ -188,6 +190,8 @@ Definition stmt_eqb (a b:stmt) : bool :=
   | MSSQLDropDefault, MSSQLDropDefault => true
   | MSSQLAddDefault x, MSSQLAddDefault y => N.eqb x y
   | MSSQLSpRename x, MSSQLSpRename y => N.eqb x y
+  | DropConstraint x, DropConstraint y => N.eqb x y
+  | AddConstraint x, AddConstraint y => N.eqb x y
   | _, _ => false
   end.
 Definition err_eqb (a b:err) : bool :=
@@ -255,6 +259,9 @@ Definition check_C13 (i:c13_in) (o:out) : bool :=
 
 (* ------------------------------------------------------------------ exact correspondence *)
 Definition model_C13 (i:c13_in) : out := plan (i_d i) (i_req i) (i_ex i).
+(* the impl-level call without the toimpl layer (used to structure the proofs) *)
+Definition inner_C13 (i:c13_in) : out := alter_column (i_d i) (i_req i) (i_ex i).
+Definition noop (s:stmt) : bool := match s with DropConstraint _ | AddConstraint _ => true | _ => false end.
 Definition corr_C13 (i:c13_in) (o:out) : bool :=
   let (ms, me) := model_C13 i in
   let (ss, e) := o in
